@@ -189,6 +189,26 @@ CHECKS = {
              "reaching a primitive through a field of a stored line (the "
              "taint does not follow object fields), RecursionError on deep "
              "structures, termination."),
+    "C08": dict(
+        technique="single-fault scripts over an abstract interpreter of the "
+                  "mutation entry points: every collaborator that can refuse "
+                  "the operation fails once at each of its call sites and the "
+                  "abstract persistent state is compared before/after "
+                  "(static analysis, no repository code is executed)",
+        engine="TABLE",
+        design_ref="DESIGN.md section 4, C08",
+        text="Partial. Decides the ordering clause -- no write to the Gfa, "
+             "its header or a registered line precedes a point where the "
+             "operation can still be refused -- for the three version "
+             "specific adders (every record type, text or line input, "
+             "version cell), process_line_queue, Connection.connect, every "
+             "_initialize_references override (every subset of undefined "
+             "names), _substitute_virtual_line, the U/O same-identifier "
+             "merge, Multiline._merge / add and _set_existing_field on a "
+             "connected line.",
+        note="Undecided: failures that are not explicit library errors, "
+             "observational equality on concrete graphs, entry points not "
+             "listed (graph operations, group item editing)."),
     "C09": dict(
         technique="who-may-call / who-writes checks on the call graph plus "
                   "decision tables of the finders, the rename path and the "
